@@ -166,7 +166,7 @@ class _ClassDeps:
                 exprs.append(n.test)
             for e in exprs:
                 for p in _paths(e, set()):
-                    if p[0] == "self":
+                    if p[0] == "self" and len(p) > 1:
                         out |= self.expand({p}, depth)
         return out
 
